@@ -1310,11 +1310,16 @@ impl<'source> Parser<'source> {
 
         let local_count = function_frame.local_count();
 
+        // The non-locals are collected in a HashSet, sort them so that the order of captures
+        // (and with it the compiled bytecode) is the same each time the script is compiled.
+        let mut accessed_non_locals = AstVec::from_iter(function_frame.accessed_non_locals);
+        accessed_non_locals.sort_by_key(|id| u32::from(*id));
+
         self.push_node_with_start_span(
             Node::Function(Function {
                 args,
                 local_count,
-                accessed_non_locals: AstVec::from_iter(function_frame.accessed_non_locals),
+                accessed_non_locals,
                 body,
                 is_generator: function_frame.contains_yield,
             }),
